@@ -876,7 +876,7 @@ package sse
 //@   ensures max_event_size_installed: cfg != nil && cfg.MaxEventSize > 0 ==> scmax(result.inputScanner) == cfg.MaxEventSize
 //@   ensures default_limit_otherwise: !(cfg != nil && cfg.MaxEventSize > 0) ==> scmax(result.inputScanner) == 0
 //@   ensures parser_is_new: fresh(result) && fresh(result.fieldScanner)
-//@   ensures parser_ready: result != nil && result.inputScanner != nil && result.fieldScanner != nil && !result.fieldScanner.keepComments && result.fieldScanner.err == nil && !scstarted(result.inputScanner)
+//@   ensures parser_ready: result != nil && result.inputScanner != nil && result.fieldScanner != nil && !result.fieldScanner.keepComments && result.fieldScanner.err == nil && !scstarted(result.inputScanner) && sctok(result.inputScanner) == ""
 
 // ---------------------------------------------------------------------------------------------------------
 // joe.go: the provider loop (C03, C04, C06, C17). All state is owned by the goroutine running Joe.start; the other
